@@ -25,7 +25,7 @@ def ext_source(j, pkgname, shared=False):
     txt = _EXT_SRC % dict(p=pkgname, j=j)
     if shared:
         import re
-        txt = re.sub(r"\b(Svc|Iface|Opt|Leaf|Cfg|NewSvc)%d\b" % j, r"\1", txt)    # the constructor of Svc is NewSvc
+        txt = re.sub(r"\b(Svc|Iface|Opt|Leaf|Cfg|NewSvc|Pair)%d\b" % j, r"\1", txt)    # the constructor of Svc is NewSvc
     return txt
 
 _EXT_SRC = """package %(p)s
@@ -49,6 +49,11 @@ type Leaf%(j)d struct{ N int }
 type Cfg%(j)d struct {
 	A *Leaf%(j)d
 	B string
+}
+
+type Pair%(j)d[L, R any] struct {
+	A L
+	B R
 }
 
 func NewCfg%(j)d() *Cfg%(j)d { return &Cfg%(j)d{A: &Leaf%(j)d{N: %(j)d}, B: "b"} }
@@ -108,11 +113,15 @@ def gen_case(rng):
                 nm, explicit = "y%d" % u["pkg"], True
             taken.add(nm)
             names[(f, u["pkg"])] = (nm, explicit)
-    return dict(uses=uses, nfiles=nfiles, names={"%d:%d" % k: v for k, v in names.items()}, order=rng.randint(0, 1), shared=shared)
+    # the injector's result type: *App, or a composite type over an external type used in the last wire file (spelled
+    # by migrate from type information, not copied from the source)
+    shape = rng.choice([None, None, None, "slice", "map", "func", "chan", "array", "struct", "generic", "xgeneric", "alias"])
+    return dict(uses=uses, nfiles=nfiles, names={"%d:%d" % k: v for k, v in names.items()}, order=rng.randint(0, 1), shared=shared, shape=shape)
 
 def describe(case):
     return " ".join("%s:%s@f%d as %s%s" % (CATALOGUE[u["pkg"]][0], u["kind"], u["file"], case["names"]["%d:%d" % (u["file"], u["pkg"])][0],
-                                          "" if case["names"]["%d:%d" % (u["file"], u["pkg"])][1] else "(implicit)") for u in case["uses"]) + " files=%d" % case["nfiles"] + (" shared-type-names" if case.get("shared") else "")
+                                          "" if case["names"]["%d:%d" % (u["file"], u["pkg"])][1] else "(implicit)") for u in case["uses"]) + " files=%d" % case["nfiles"] + (" shared-type-names" if case.get("shared") else "") + \
+        (" result=%s" % case["shape"] if case.get("shape") else "")
 
 def provided(u):
     """(type expression template with %(q)s for the qualifier, is it consumed by NewApp)"""
@@ -164,6 +173,27 @@ def render(case, prefix, pkgname):
     params = ", ".join("a%d %s" % (i, provided(u) % ("p%d" % u["pkg"])) for i, u in enumerate(uses))
     files["%s/types.go" % pkgname] = "package %s\n\nimport (\n%s)\n\ntype App struct{ N int }\n\nfunc NewApp(%s) *App { return &App{N: %d} }\n" % (
         pkgname, imps, params, len(uses))
+    # result type of the injector
+    lastf = case["nfiles"] - 1
+    shape = case.get("shape")
+    rt_w = "*App"
+    if shape:
+        cand = [u for u in uses if u["file"] == lastf]
+        if cand:
+            u0 = cand[0]
+            q_w = case["names"]["%d:%d" % (lastf, u0["pkg"])][0]
+            e_t, e_w = provided(u0) % ("p%d" % u0["pkg"]), provided(u0) % q_w
+            q_t = "p%d" % u0["pkg"]
+        else:
+            u0, e_t, e_w, q_t, q_w = None, "*App", "*App", None, None
+        if shape == "xgeneric" and u0 is None:
+            shape = "generic"
+        tmpl = {"slice": "[]%(e)s", "map": "map[string]%(e)s", "func": "func(%(e)s, ...*App) (%(e)s, error)", "chan": "<-chan %(e)s",
+                "array": "[2]%(e)s", "struct": "struct {\n\tX %(e)s\n\tY *App `json:\"y\"`\n}", "generic": "*Box[%(e)s]",
+                "xgeneric": "*%(q)s.Pair" + str(u0["pkg"] if u0 else 0) + "[%(e)s, []*App]", "alias": "[]ExtAlias"}[shape]
+        rt_t = tmpl % dict(e=e_t, q=q_t)
+        rt_w = tmpl % dict(e=e_w, q=q_w)
+        files["%s/types.go" % pkgname] += "\ntype Box[T any] struct{ V T }\n\ntype ExtAlias = %s\n\nvar ZeroRT %s\n\nfunc Wrap(a *App) %s { return ZeroRT }\n" % (e_t, rt_t, rt_t)
     sets = []
     wire_files = []
     for f in range(case["nfiles"]):
@@ -191,7 +221,10 @@ def render(case, prefix, pkgname):
             build = list(sets) + ["NewApp"]
             if case["order"]:
                 build = ["NewApp"] + list(sets)
-            body.append("func Init() *App {\n\twire.Build(%s)\n\treturn nil\n}\n" % ", ".join(build))
+            if shape:
+                body.append("func Init() %s {\n\twire.Build(%s)\n\treturn ZeroRT\n}\n" % (rt_w, ", ".join(build + ["Wrap"])))
+            else:
+                body.append("func Init() *App {\n\twire.Build(%s)\n\treturn nil\n}\n" % ", ".join(build))
         name = "wire%d.go" % f
         files["%s/%s" % (pkgname, name)] = "//go:build wireinject\n\npackage %s\n\nimport (\n%s)\n\n%s" % (pkgname, "".join(imports), "\n".join(body))
         wire_files.append(name)
@@ -199,7 +232,7 @@ def render(case, prefix, pkgname):
         import re
         for rel in list(files):
             if rel.startswith(pkgname + "/"):
-                files[rel] = re.sub(r"\b(Svc|Iface|Opt|Leaf|Cfg|NewSvc)\d+\b", r"\1", files[rel])
+                files[rel] = re.sub(r"\b(Svc|Iface|Opt|Leaf|Cfg|NewSvc|Pair)\d+\b", r"\1", files[rel])
     return files, dict(wire_files=wire_files, sets=sets, uses=uses)
 
 # ------------------------------------------------------------------------------------------------ failure kinds
